@@ -180,7 +180,7 @@ func verifC06History() {
 					r = append([]byte{}, vHRRRandom...)
 					d := vByte()
 					vAssume(d != 0)
-					r[[]int{0, 31, 13, 7, 24}[vInt(0, 1+3*vTier())]] ^= d // first, last, inner positions
+					r[[]int{0, 31, 13, 7, 24}[vInt(0, 1+vTier())]] ^= d // first, last, inner positions
 				} else {
 					vAssume(r[0] != 0xCF)
 				}
@@ -208,7 +208,7 @@ func verifC06History() {
 			before := len(tr.out)
 			var n int
 			var err error
-			if sp := []int{0, 5, 1, 6}[vInt(0, 1+2*vTier())]; sp > 0 && sp < len(rec) {
+			if sp := []int{0, 5, 1, 6}[vInt(0, 1+vTier())]; sp > 0 && sp < len(rec) {
 				// the backend's record arrives split over two Write calls
 				n1, err1 := c.Write(rec[:sp])
 				vAssert(err1 == nil && n1 == sp, "first part of a split backend record accepted")
